@@ -1042,6 +1042,57 @@ def gen_cases(ctx, side, quick):
 
 
 BURST_SIZES = [66, 70, 100, 129, 130, 200, 260, 300, 520]
+
+
+def gen_embedded_cases(ctx, side, quick):
+    """a segment is not a packet: data packets whose payload CONTAINS the complete encoding of another packet (heartbeat, logout /
+    end of session, data, debug, login reject, a zero-length frame, a length prefix alone), cut exactly at the boundaries of the
+    embedded bytes so that they arrive as a segment of their own — alone, with one more cut elsewhere, as the first / last segment
+    so far — under the usual poll schedules.  (FIX values cannot contain SOH, hence no complete frame; there the embedded bytes
+    are complete fields and field sequences: `35=0|`, `9=12|`, `10=000|`, `8=FIX.4.4|9=5|35=0|`.)"""
+    rng = ctx.rng
+    if side.name == 'soup':
+        inner = [soup_layout(t) for t in ('serverHb', 'clientHb', 'endOfSession', 'logoutReq', ['seqData', b'x'], ['unseqData', b''],
+                                         ['debug', [72]], ['loginRej', 65])] + [b'\x00\x00', b'\x00\x01', b'\x00\x03S', b'\x00\x01H\x00\x01Z']
+    else:
+        inner = [b'35=0', b'35=5', b'9=12', b'10=000', b'8=FIX.4.4', b'35=', b'=', b'0', b'5']
+    for rnd in range(1 if quick else 10):
+        for emb in inner:
+            for where in ('alone', 'alone', 'plus-one-cut', 'first-so-far', 'last-so-far'):
+                pre_n, post_n = rng.randint(0, 2), rng.randint(1, 3)
+                pre = side.gen_msgs(rng, pre_n, True)
+                post = side.gen_msgs(rng, post_n, True, force_logout=(rng.randrange(post_n) if rng.random() < 0.4 else None))
+                a, b = rng.choice([b'', b'', b'q', b'\x00', b'ab']), rng.choice([b'', b'', b'q', b'\x00\x01', b'zz'])
+                if side.name == 'soup':
+                    host = [rng.choice(['seqData', 'unseqData']), a + emb + b]
+                    off = 3 + len(a)
+                else:
+                    a, b = a.replace(b'\x00', b'n'), b.replace(b'\x00', b'n').replace(b'\x01', b'm')
+                    host = {'ver': 'FIX.4.4', 'type': rng.choice(['D', '8']), 'hdr': [], 'body': [[58, (a + emb + b).decode()]]}
+                msgs = pre + [host] + post
+                descs = [side.desc(m) for m in msgs]
+                frames = [side.frame(m) for m in msgs]
+                h0 = sum(len(f) for f in frames[:len(pre)])
+                if side.name != 'soup':
+                    off = frames[len(pre)].index(b'58=') + 3 + len(a)
+                L = sum(len(f) for f in frames)
+                e0, e1 = h0 + off, h0 + off + len(emb)
+                if where == 'alone':
+                    cuts = [e0, e1]
+                elif where == 'plus-one-cut':
+                    cuts = [e0, e1, rng.randrange(1, L)]
+                elif where == 'first-so-far':        # also cut at the start of the host packet: its header, then the embedded bytes alone
+                    cuts = [e0, e1] + ([h0] if h0 else [])
+                else:
+                    cuts = [e0, e1]
+                cuts = sorted({c for c in cuts if 0 < c < L})
+                polls = [rng.choice([0, 1, 1, 2]) for _ in range(len(cuts) + 1)]
+                hl = {'proto': side.name, 'msgs': descs, 'cuts': cuts, 'polls': polls}
+                if where == 'last-so-far':
+                    hl['upto'] = e1                      # nothing arrives after the embedded bytes
+                if rng.random() < 0.2:
+                    hl['via'] = 'session'
+                yield 'embedded:' + where + (':via-session' if hl.get('via') else ''), hl
 # payload sizes around the sign bit of the 2-byte length prefix (length field = payload + 1) and at its maximum
 BIG_PAYLOADS = [32765, 32766, 32767, 32768, 40000, 65533, 65534]
 
@@ -1360,6 +1411,10 @@ def run(ctx):
                 break
             do_case(label, hl)
         for label, hl in gen_big_cases(ctx, side, quick):
+            if runner.hangs >= 2:
+                break
+            do_case(label, hl)
+        for label, hl in gen_embedded_cases(ctx, side, quick):
             if runner.hangs >= 2:
                 break
             do_case(label, hl)
